@@ -80,6 +80,14 @@ pub enum Step {
         t2: usize,
         b2: Body,
     },
+    /// two ask futures are CREATED first (by calling `ask`, not polled), then awaited one after the other: whatever an ask
+    /// registers about its caller belongs to the time it is awaited, not to the time its future was made
+    SeqAsk2 {
+        t1: usize,
+        b1: Body,
+        t2: usize,
+        b2: Body,
+    },
     /// an in-actor ask joined with a sibling future that panics after a yield (the ask is dropped by the unwinding hook)
     JoinAskPanic {
         target: usize,
